@@ -25,6 +25,33 @@ var BoundaryLens = func() []int {
 
 // Text: n octets of printable ASCII the way clients and servers write their strings: bare, or ended by one or
 // several NULs, a blank or a line end, now and then with a NUL in front or in the middle.
+// LargeTotal adds options to p (and its reference form e) until the option area is large: totals just below and above
+// 64 KiB (what a 16-bit offset can name), around 128 KiB, and up to all 254 codes with 4096 octets each (1 MB).
+func LargeTotal(r *rand.Rand, p *dhcpv4.DHCPv4, e *ref4.P4) {
+	target := []int{60000, 65000, 65536 + r.IntN(600), 70000, 131072 + r.IntN(600), 200000, 400000, 1040000}[r.IntN(8)]
+	per := []int{300, 1000, 4096, 4096, 255, 510}[r.IntN(6)]
+	codes := r.Perm(254)
+	total := 0
+	for _, c := range codes {
+		if total >= target {
+			break
+		}
+		code := byte(c + 1)
+		l := per
+		if r.IntN(3) == 0 {
+			l = 1 + r.IntN(4096)
+		}
+		v := make([]byte, l)
+		x := byte(r.UintN(256))
+		for i := range v { // every octet depends on its position in the value and on the code: a copy from the wrong place shows
+			v[i] = x + byte(i) + byte(i>>8)*31 + code
+		}
+		p.Options[code] = v
+		e.Opts[code] = append([]byte{}, v...)
+		total += l + 2*(l/255+1)
+	}
+}
+
 // ClientID: a client identifier (option 61) in one of the forms clients send: the hardware type followed by the hardware
 // address (the packet's own, or another one of 1..16 octets), type 0 followed by a serial number, the RFC 4361 form
 // (255, IAID, DUID), a lone type octet.
